@@ -18,6 +18,7 @@ type lifeSpec struct {
 	Weights    map[string]int // action weights (default 1); 0 disables
 	Capacity   uint64
 	Drain      bool // advance until nothing is scheduled at the end of the case
+	VaryWorld  bool // number of providers and the smallest file size are generated
 	MaxSteps   int
 	Finish     func(s *Sim, cfg *LifeCfg, os []Oracle)
 	Pre        func(t *rapid.T, s *Sim, cfg *LifeCfg, os []Oracle) // generated configuration, before world setup
@@ -50,6 +51,19 @@ func (sp *lifeSpec) property() func(*rapid.T) {
 		aborted := RunCase(func() {
 			if sp.Pre != nil {
 				sp.Pre(t, s, cfg, os)
+			}
+			if sp.VaryWorld {
+				// world shape: few providers (no replacement can be found for a stalled shard) and tiny files
+				// (prices, collateral and refunds that truncate to zero)
+				n := rapid.SampledFrom([]int{5, 5, 5, 4, 3, 2}).Draw(t, "nProviders")
+				cfg.Providers = cfg.Providers[:n]
+				if rapid.IntRange(0, 3).Draw(t, "tinyFiles") == 0 {
+					cfg.MinSize = 1
+					s.Label("world-tiny-files")
+				}
+				if n < 4 {
+					s.Label("world-few-providers")
+				}
 			}
 			s.SetupStorage(cfg, capacity)
 			gens := map[string]func(*rapid.T, *Sim) *Action{
@@ -125,7 +139,7 @@ func (sp *lifeSpec) register() {
 // ---- C13 ----
 
 var specC13 = &lifeSpec{
-	Prop: "C13", Test: "TestC13",
+	Prop: "C13", Test: "TestC13", VaryWorld: true,
 	Oracles: func() []Oracle { return []Oracle{&C13Oracle{}} },
 	Nontrivial: func(s *Sim, os []Oracle) bool {
 		o := os[0].(*C13Oracle)
@@ -142,7 +156,7 @@ func TestC13(t *testing.T) { runRapid(t, "TestC13", specC13.property()) }
 // ---- C14 ----
 
 var specC14 = &lifeSpec{
-	Prop: "C14", Test: "TestC14",
+	Prop: "C14", Test: "TestC14", VaryWorld: true,
 	Oracles: func() []Oracle { return []Oracle{&C14Oracle{}} },
 	Nontrivial: func(s *Sim, os []Oracle) bool {
 		o := os[0].(*C14Oracle)
@@ -388,7 +402,7 @@ var specC16 = &lifeSpec{
 		o := os[0].(*C16Oracle)
 		return (o.Contended > 0 || o.StaleTried > 0) && o.Completed > 0
 	},
-	Weights:  map[string]int{"complete": 6, "advance": 3, "storeNew": 2, "storeUpdate": 3, "storeStale": 5, "permission": 1, "cancel": 2, "terminate": 1, "renew": 1, "migrate": 0, "claim": 0},
+	Weights:  map[string]int{"complete": 6, "advance": 3, "storeNew": 2, "storeUpdate": 3, "storeStale": 5, "permission": 1, "cancel": 2, "terminate": 1, "renew": 3, "migrate": 0, "claim": 0},
 	MaxSteps: 40,
 }
 
